@@ -799,7 +799,22 @@ type pkLP struct {
 	Age                         uint64
 }
 
+type pkCrit struct {
+	Ra         string // r0 | r1 | rx
+	Denoms     []int
+	MinFeePct  math.LegacyDec
+	Max, Limit map[int]math.Int
+	Share      math.LegacyDec
+	SV         bool
+}
+
+type pkGrant struct {
+	Lp, Op int
+	Crit   []pkCrit
+}
+
 type pkSnap struct {
+	GrantsS []pkGrant
 	H       int64
 	Latest  []string
 	Fin     []string
@@ -935,7 +950,19 @@ func (h *pkH) snapshot() *pkSnap {
 					continue
 				}
 				var cs []string
+				gs := pkGrant{Lp: gi, Op: ei}
 				for _, c := range fa.Rollapps {
+					pc := pkCrit{Ra: h.rname(c.RollappId), MinFeePct: c.MinFeePercentage, Share: c.OperatorFeeShare, SV: c.SettlementValidated, Max: map[int]math.Int{}, Limit: map[int]math.Int{}}
+					for _, d := range c.Denoms {
+						pc.Denoms = append(pc.Denoms, h.denomIdxOf(d))
+					}
+					for _, x := range c.MaxPrice {
+						pc.Max[h.denomIdxOf(x.Denom)] = x.Amount
+					}
+					for _, x := range c.SpendLimit {
+						pc.Limit[h.denomIdxOf(x.Denom)] = x.Amount
+					}
+					gs.Crit = append(gs.Crit, pc)
 					ds := "*"
 					if len(c.Denoms) > 0 {
 						var x []string
@@ -948,6 +975,7 @@ func (h *pkH) snapshot() *pkSnap {
 						h.renderCoins(c.MaxPrice), h.renderCoins(c.SpendLimit), c.OperatorFeeShare.BigInt().String(), b2s(c.SettlementValidated)))
 				}
 				s.Grants = append(s.Grants, fmt.Sprintf("a%d>a%d:%s", gi, ei, strings.Join(cs, "|")))
+				s.GrantsS = append(s.GrantsS, gs)
 			}
 		}
 	}
